@@ -24,7 +24,7 @@ ASSUMPTIONS = [
     "time-varying groundwater series are not generated here (their first observation must lie on the start date, which differs between the two runs); constant tables are",
 ]
 BUDGET = {"quick": 320, "thorough": 3000}
-PROFILE = gen.profile(p_off=0.0, seasons=(2, 4), max_days=1500, p_gdd=0.45, temp_events=(0, 4), switch_gdd=False, p_harvest=0.3, p_bunds=0.5, p_fm=0.5,
+PROFILE = gen.profile(p_lattice=0.35, p_off=0.0, seasons=(2, 4), max_days=1500, p_gdd=0.45, temp_events=(0, 4), switch_gdd=False, p_harvest=0.3, p_bunds=0.5, p_fm=0.5,
                       rel_start=(("on", 4), ("before", 2), ("after", 1)), gw_kinds=["const"], p_gw=0.2, co2_kinds=["const", "table"],
                       irr=((0, 1), (1, 3), (2, 3), (3, 2), (4, 3), (5, 1)), p_cap=0.2,
                       iwc=(("FC", 2), ("WP", 4), ("SAT", 1), ("Pct", 2), ("Num", 1), ("Depth", 1)),
